@@ -57,6 +57,13 @@ fn check<C: Pv>(c: &Case) -> Report {
             .class("excluded_by_known_finding:horner-positional-contract")
             .class(format!("field:{}", C::NAME));
     }
+    let coeff_ok = e1::coeff_slots_ok(&circuit);
+    if e1::exclude_known() && !coeff_ok {
+        // known finding C10/coeff-slot-second-creator: excluded by construction (counted)
+        return Report::pass()
+            .class("excluded_by_known_finding:coeff-slot-second-creator")
+            .class(format!("field:{}", C::NAME));
+    }
     let mut runner = circuit.runner();
     if let Err(e) = runner
         .set_public_inputs(&publics)
@@ -119,6 +126,8 @@ fn check<C: Pv>(c: &Case) -> Report {
             // circuit's shape, not on the outcome) is attributed to that class
             let sig = if !horner_ok {
                 "C10/horner-positional-contract".to_string()
+            } else if !coeff_ok {
+                "C10/coeff-slot-second-creator".to_string()
             } else if features.contains("two-creators") {
                 "C10/two-creators".to_string()
             } else if features.contains("npo-duplicate-output") {
